@@ -1,7 +1,7 @@
 (* C11 - status() is exact at rest and never nonsensical. *)
 From Coq Require Import List ZArith Bool.
 From DP Require Import Common.Tab Managed.Model Managed.Contrib Managed.All Managed.Ops Managed.Ops2
-  Managed.Thms Managed.InvCore Managed.Reach.
+  Managed.Thms Managed.InvCore Managed.Reach Managed.StatusChain.
 Import ListNotations.
 Open Scope Z_scope.
 
@@ -25,6 +25,15 @@ Theorem c11_size_le_max : forall c tr s,
   run c (init c) tr = Some s -> no_rc tr = true -> alive s = true -> size s <= Z.of_nat (max0 c).
 Proof. exact c01_size. Qed.
 
+(* without resize / close the whole chain holds at every schedule point of every history, in
+   progress or at rest: max_size is the configured limit, 0 <= available <= size <= max_size,
+   0 <= waiting <= callers inside get() *)
+Theorem c11_chain : forall c tr s m z a w,
+  run c (init c) tr = Some s -> no_rc tr = true -> alive s = true ->
+  status_event s = EStatus m z a w ->
+  m = Z.of_nat (max0 c) /\ 0 <= a /\ a <= z /\ z <= m /\ 0 <= w /\ w <= sum inget (tasks s).
+Proof. exact status_chain. Qed.
+
 Definition g0 := {| gw := TNone; gc := TNone; gr := TNone |}.
 Definition cfg1 := {| max0 := 1; lifo := false; pre := []; post := []; pcr := []; runtime := false |}.
 Definition tr_q : list label :=
@@ -34,8 +43,17 @@ Example c11_nonvacuous :
   exists s, run cfg1 (init cfg1) tr_q = Some s /\ quiescent s /\ status_event s = EStatus 1 1 0 2.
 Proof. eexists. vm_compute. repeat split. Qed.
 
+Example c11_chain_nonvacuous : no_rc tr_q = true /\
+  exists s, run cfg1 (init cfg1) tr_q = Some s /\ alive s = true /\ status_event s = EStatus 1 1 0 2.
+Proof. split; [vm_compute; reflexivity|]. eexists. vm_compute. repeat split. Qed.
+
 Check c11_rest : forall c s, Reachable c s -> alive s = true -> quiescent s ->
   status_event s = EStatus (maxs s) (zlen (vec s) + zlen (out s)) (zlen (vec s)) (sum nwait (tasks s)).
 Print Assumptions c11_rest.
 Print Assumptions c11_plausible.
 Print Assumptions c11_size_le_max.
+Check c11_chain : forall c tr s m z a w,
+  run c (init c) tr = Some s -> no_rc tr = true -> alive s = true ->
+  status_event s = EStatus m z a w ->
+  m = Z.of_nat (max0 c) /\ 0 <= a /\ a <= z /\ z <= m /\ 0 <= w /\ w <= sum inget (tasks s).
+Print Assumptions c11_chain.
